@@ -563,6 +563,20 @@ class Rope:
             return norm(kind, [p.recode(op, 'ascii') for p in self.pieces])
         if enc == 'ascii':
             return self._recode_ascii(op, kind)
+        if enc == 'utf-8' and op == 'd' and isinstance(self.length(), int) and self.length() <= 4 and \
+                all(isinstance(p, Opq) and not p.chain for p in nonempty_pieces(self)):
+            # a few arbitrary bytes decoded as UTF-8: pure ASCII decodes to itself; a first non-ASCII byte that cannot start a sequence
+            # (0x80..0xC1, 0xF5..0xFF) is an error; anything else is beyond the model
+            vals = [p.src.peek(p.lo + i, ()) for p in nonempty_pieces(self) for i in range(p.length())]
+            if s_and(*[v < 128 for v in vals]):
+                return norm(kind, [p.recode(op, 'ascii') for p in self.pieces])
+            for v in vals:
+                if v < 128:
+                    continue
+                if s_or(v < 0xc2, v > 0xf4):
+                    raise UnicodeDecodeError('utf-8', b'\xff', 0, 1, 'invalid start byte [abstract]')
+                break
+            raise Unsupported('codec utf-8 on abstract content (multi-byte sequence)')
         if enc not in TOTAL_CODECS:
             raise Unsupported('codec %s on abstract content' % enc)
         return norm(kind, [p.recode(op, enc) for p in self.pieces])
@@ -576,6 +590,10 @@ class Rope:
                 continue
             if isinstance(p, (Num, Tok)):
                 out.append(p.recode(op, 'ascii'))
+                continue
+            inverse = ('e' if op == 'd' else 'd')
+            if getattr(p, 'chain', ()) and p.chain[-1][0] == inverse and codec_name(p.chain[-1][1]) == 'ascii':
+                out.append(p.recode(op, 'ascii'))          # what was encoded with ascii decodes with ascii (and the other way round)
                 continue
             ok = _ascii_ok(p)
             if not ok:
@@ -1154,7 +1172,7 @@ def _same_piece(p, q):
 def _codepoint_fill(src, n):
     """deterministic position-coded content for an opaque source (printable, codec safe)"""
     # letters, plus the characters whose EBCDIC code differs between cp500 and cp037 (a code-page mix-up shows in the witness)
-    alphabet = 'ABCDEFGHIJKLMNOPQRSTUVWXYZabcdefghijklmnopqrstuvwxyz!^[]|\xe9'
+    alphabet = 'ABCDEFGHIJKLMNOPQRSTUVWXYZabcdefghijklmnopqrstuvwxyz!^[]|\xe9\n\x1c'
     k = sum(ord(c) for c in src.name) % len(alphabet)
     return ''.join(alphabet[(k + 7 * i) % len(alphabet)] for i in range(n))
 
